@@ -214,6 +214,11 @@ func TestC09LateAccept(t *testing.T) {
 // are upper bounds with seconds of slack against a write timeout of 20 s.
 func TestC09StalledWriteEnd(t *testing.T) {
 	ev.Rule("HSMS-SS, both roles, real time: Selected; the peer stops reading (window 0-64 bytes); 1 sender blocks mid-write, 0-3 more senders (sync with/without reply, async) queue behind it; write timeout 20 s, close timeout 1 s, T3 30 s; the generation is then ended by Close / the peer closing (FIN) / the peer resetting. Oracle: every one of those sends returns an error within 3 s (none reports success: the peer never read a byte of them), Close returns within close timeout + 3 s, after Close the state is NotConnected and every socket handed to the library is closed; non-trivial = at least one sender queued behind the stalled one")
+	// Close's error is decided by a wall-clock race inside the library (epoch.join: transport stop and
+	// task join share one deadline); when this process was starved the harness, not the library, lost
+	// it: such a close-timeout report is inconclusive (seen once with 16 checks running at once).
+	lag := vt.StartLag()
+	defer lag.Stop()
 	vt.Check(t, 120, 6000, func(rt *rapid.T) {
 		active := rapid.Bool().Draw(rt, "active")
 		window := rapid.SampledFrom([]int{0, 5, 14, 64}).Draw(rt, "window")
@@ -376,6 +381,9 @@ func TestC09StalledWriteEnd(t *testing.T) {
 			select {
 			case e := <-closeRes:
 				if e != nil {
+					if errors.Is(e, hsms.ErrCloseTimeout) && lag.Max() > c10MaxLag {
+						rt.Skip(fmt.Sprintf("inconclusive: Close returned %v, but this process was scheduled %v late (limit %v)", e, lag.Max(), c10MaxLag))
+					}
 					fail("Close returned %v", e)
 				}
 			case <-time.After(4 * time.Second):
